@@ -166,7 +166,8 @@ def main():
     for r in res:
         print('%-4s %-8s %-38s %5.1fs  %s' % (r['property'], 'killed' if r['killed'] else 'SURVIVED', r['contracts'][:38], r['s'], r['first'][:110]))
     print('%d mutants, %d killed, %d survived' % (len(res), len(res) - len(surv), len(surv)))
-    json.dump(res, open(os.path.join(ROOT, 'evidence', 'mutant_gate%s.json' % ('_' + a.only if a.only else '')), 'w'), indent=1)
+    os.makedirs(os.path.join(ROOT, 'gate_results'), exist_ok=True)
+    json.dump(res, open(os.path.join(ROOT, 'gate_results', 'mutant_gate%s.json' % ('_' + a.only if a.only else '')), 'w'), indent=1)
     return 3 if surv else 0
 
 
